@@ -2,6 +2,7 @@
 // queue part of C07 (allocation faults at every request position).
 #include "fault.h"
 #include <algorithm>
+#include <climits>
 #include <deque>
 #include <set>
 #include <vector>
@@ -50,10 +51,24 @@ struct Run
     explicit Run(Ctx &c) : cx(c) {}
 };
 
+// The comparison contract is the sign of the result only; the style is fixed per history (0: -1/0/+1, 1: difference,
+// 2: difference * 1000, 3: INT_MIN/0/INT_MAX, 4..7: asymmetric mixes).
+static int g_cmp_style = 0;
 static int cmp_first(void const *a, void const *b)
 {
-    uint8_t x = *(uint8_t const *)a, y = *(uint8_t const *)b;
-    return (x > y) - (x < y);
+    int x = *(uint8_t const *)a, y = *(uint8_t const *)b;
+    int s = (x > y) - (x < y);
+    switch (g_cmp_style & 7)
+    {
+    default: case 0: return s;
+    case 1: return x - y;
+    case 2: return (x - y) * 1000;
+    case 3: return s > 0 ? INT_MAX : s < 0 ? INT_MIN : 0;
+    case 4: return s > 0 ? 2 : s;
+    case 5: return s < 0 ? -2 : s;
+    case 6: return s > 0 ? x - y + 1 : s;
+    case 7: return s < 0 ? INT_MIN : x - y;
+    }
 }
 static unsigned dtor_calls = 0;
 static void dtor_fn(void *) { ++dtor_calls; }
@@ -343,7 +358,10 @@ static void op_query(Run &r, Q &q, Tape &t)
 static void make_q(Run &r, Q &q, Tape &t)
 {
     static size_t const sizes[] = {1, 4, 8, 12, 0, 3, 16, 2};
-    size_t siz = sizes[t.u8() % 8];
+    uint8_t sb = t.u8();
+    size_t siz = sizes[sb % 8];
+    g_cmp_style = (sb >> 3) & 7; // upper bits of the same byte; the second queue's byte decides for the history
+    r.cx.hash.add(uint64_t(g_cmp_style) << 8);
     q.heap = t.coin();
     q.siz = siz ? siz : 1;
     r.cx.hash.add(siz * 2 + q.heap);
